@@ -146,11 +146,15 @@ Proof.
     assert (Hgen : forall e', select_run rem tc (apply_env e' s) sc = (s', sc', r) -> Inv s' D).
     { intros e' E'. eapply IH; [|exact E']. now apply apply_env_inv. }
     destruct e; try (now apply (Hgen _ E)).
-    destruct rem as [r0|].
-    + destruct (tc + r0 <=? now s + Z.max 0 d).
-      * injection E as <- _ _. eapply Inv_view; [|exact H]. reflexivity.
+    + destruct rem as [r0|].
+      * destruct (tc + r0 <=? now s + Z.max 0 d).
+        -- injection E as <- _ _. eapply Inv_view; [|exact H]. reflexivity.
+        -- eapply IH; [|exact E]. eapply Inv_view; [|exact H]. reflexivity.
       * eapply IH; [|exact E]. eapply Inv_view; [|exact H]. reflexivity.
-    + eapply IH; [|exact E]. eapply Inv_view; [|exact H]. reflexivity.
+    + (* Late *)
+      destruct rem as [r0|].
+      * injection E as <- _ _. eapply Inv_view; [|exact H]. reflexivity.
+      * eapply IH; [|exact E]. exact H.
 Qed.
 
 Lemma wait_loop_inv : forall old fuel t0 tmo rem s sc D s' sc' w,
@@ -203,11 +207,15 @@ Proof.
               now s <= now s' /\ (r = Some None -> exists r0, rem = Some r0 /\ tc + r0 <= now s')).
     { intros e' E'. apply IH in E'. pose proof (apply_env_clock e' s). split; [lia|tauto]. }
     destruct e; try (now apply (Hgen _ E)).
-    destruct rem as [r0|].
-    + destruct (tc + r0 <=? now s + Z.max 0 d) eqn:EC.
-      * injection E as <- _ <-. cbn. split; [lia|]. intros _. exists r0. split; [reflexivity|lia].
+    + destruct rem as [r0|].
+      * destruct (tc + r0 <=? now s + Z.max 0 d) eqn:EC.
+        -- injection E as <- _ <-. cbn. split; [lia|]. intros _. exists r0. split; [reflexivity|lia].
+        -- apply IH in E. cbn in E. split; [lia|tauto].
       * apply IH in E. cbn in E. split; [lia|tauto].
-    + apply IH in E. cbn in E. split; [lia|tauto].
+    + (* Late: late is never early *)
+      destruct rem as [r0|].
+      * injection E as <- _ <-. cbn. split; [lia|]. intros _. exists r0. split; [reflexivity|lia].
+      * now apply IH in E.
 Qed.
 
 Lemma select_run_ready : forall sc rem tc s s' sc' f,
@@ -218,7 +226,8 @@ Proof.
     destruct rem; discriminate.
   - destruct (first_ready s) eqn:EF; [injection E as <- _ <-; exact EF|].
     destruct e; try (now apply IH in E).
-    destruct rem as [r0|]; [destruct (tc + r0 <=? now s + Z.max 0 d); [discriminate|]|]; now apply IH in E.
+    + destruct rem as [r0|]; [destruct (tc + r0 <=? now s + Z.max 0 d); [discriminate|]|]; now apply IH in E.
+    + destruct rem as [r0|]; [discriminate|now apply IH in E].
 Qed.
 
 (* what the wait can return as an event *)
@@ -685,12 +694,17 @@ Proof.
         + right. now apply H2.
       - intros q Hin. right. now apply H3. }
     destruct e; try (now apply (Hgen _ (apply_env_qsched _ s) E)).
-    destruct rem as [r0|].
-    + destruct (tc + r0 <=? now s + Z.max 0 d).
-      * injection E as <- <- _. exists []. cbn. rewrite app_nil_r. split; [reflexivity|]. split; [intros q []|].
-        intros q [Hq|Hq]; [discriminate|right; exact Hq].
+    + destruct rem as [r0|].
+      * destruct (tc + r0 <=? now s + Z.max 0 d).
+        -- injection E as <- <- _. exists []. cbn. rewrite app_nil_r. split; [reflexivity|]. split; [intros q []|].
+           intros q [Hq|Hq]; [discriminate|right; exact Hq].
+        -- apply (Hgen (set_now (now s + Z.max 0 d) s)); [cbn; now rewrite app_nil_r|exact E].
       * apply (Hgen (set_now (now s + Z.max 0 d) s)); [cbn; now rewrite app_nil_r|exact E].
-    + apply (Hgen (set_now (now s + Z.max 0 d) s)); [cbn; now rewrite app_nil_r|exact E].
+    + (* Late *)
+      destruct rem as [r0|].
+      * injection E as <- <- _. exists []. cbn. rewrite app_nil_r. split; [reflexivity|]. split; [intros q []|].
+        intros q Hq. right. exact Hq.
+      * apply (Hgen s); [cbn; now rewrite app_nil_r|exact E].
 Qed.
 
 Lemma wait_loop_qsched : forall old fuel t0 tmo rem s sc s' sc' w,
@@ -1290,4 +1304,27 @@ Proof. vm_compute. auto. Qed.
 Example raise_origin_unbound_witness :
   let '(_, _, o) := send toy_fk None None (init 0) [Sched 5 1; Arrive [97%N]] in
   o = ORaise OtherError [].
+Proof. vm_compute. auto. Qed.
+
+(* A select that times out EXACTLY at its deadline never reaches the second pop
+   site of _send (`when < time.time()` is false at now = when): the blocked
+   request returns None and the event goes to the next request.  A LATE wake-up
+   (the normal case in the real world; step [Late d]) delivers it through that
+   site, with the other events left sorted behind it. *)
+Example exact_wakeup_misses_second_pop_site :
+  let s := apply_envs [Sched 6 1; Sched 2 2; Sched 4 3] (init 0) in
+  let '(s', _, o) := send toy_fk None None s [] in
+  o = ONone /\ now s' = 2.
+Proof. vm_compute. auto. Qed.
+
+Example late_wakeup_second_pop_site :
+  let s := apply_envs [Sched 6 1; Sched 2 2; Sched 4 3] (init 0) in
+  let '(s', sc', o) := send toy_fk None None s [Late 1; Tick 9] in
+  o = OSched 2 2 /\ now s' = 3 /\ qsched s' = [(4, 3%N); (6, 1%N)] /\ sc' = [Tick 9].
+Proof. vm_compute. auto. Qed.
+
+(* late is never early: with nothing scheduled, None comes at deadline + d *)
+Example late_none_witness :
+  let '(s', _, o) := send toy_fk None (Some 5) (init 0) [Tick 1; Late 2] in
+  o = ONone /\ now s' = 7.
 Proof. vm_compute. auto. Qed.
